@@ -3,7 +3,7 @@ import csv as pycsv
 import io
 from fractions import Fraction
 from .. import spec
-from ..gen import G, Qty
+from ..gen import fmt_date_layout, G, Qty
 from ..common import run_apps, app, out_of, sig
 from ..core import unhx
 
@@ -68,7 +68,11 @@ def gen(g, count):
             book.insert(g.r.randint(0, len(book)), (dup, [(g.r.choice(leaves), qty(g)) for _ in range(g.r.randint(0, 3))]))
         foods = rec + names(g, 3)
         log = []
-        for d in g.r.sample(__import__('hv.gen', fromlist=['WINDOW']).WINDOW, g.r.randint(1, 3)):
+        import datetime as _dt
+        pool = __import__('hv.gen', fromlist=['WINDOW']).WINDOW
+        if g.r.random() < 0.1:
+            pool = [_dt.date(1, 1, 1), _dt.date(87, 3, 4), _dt.date(987, 3, 4), _dt.date(999, 12, 31), _dt.date(1000, 1, 1), _dt.date(1582, 10, 15), _dt.date(2600, 2, 28), _dt.date(9999, 12, 31)]
+        for d in g.r.sample(pool, g.r.randint(1, 3)):
             log.append((d, [(g.r.choice(foods), qty(g)) for _ in range(g.r.randint(0, 5))] if foods else [], []))
         # the date column is ISO whatever layout the log is written in, and wherever that layout comes from; a period does not
         # change the rows that are left
@@ -116,7 +120,7 @@ def judge(ctx, cases, impl):
             ctx.problem('oracle', '`%s` output is not valid RFC 4180: %s' % (kind, e), c, {'out': raw.decode('utf-8', 'replace')[:800]}, signature='csv-invalid')
             continue
         if kind == 'csv log':
-            want = [(d.strftime('%Y-%m-%d'), f, q, 3, abs(q)) for d, ents, _ in c.meta['log'] for f, q in spec.merge_day(ents)]
+            want = [(fmt_date_layout(d, '2006-01-02'), f, q, 3, abs(q)) for d, ents, _ in c.meta['log'] for f, q in spec.merge_day(ents)]
         elif kind == 'csv database':
             want = [(n.decode('utf-8', 'surrogateescape'), leaf, q.value, 2, abs(q.value)) for n, ings in c.meta['book'] for leaf, q in ings]
         else:
